@@ -319,7 +319,7 @@ func isSym(v value) bool {
 // contains a symbolic scalar.
 func containsSym(v value) bool {
 	switch v := v.(type) {
-	case *Term, *SymStr:
+	case *Term, *SymStr, intFloat:
 		return true
 	case structure:
 		for _, x := range v {
